@@ -1,4 +1,4 @@
-//! `ParallelSliceMut::par_chunks_mut`.
+//! `ParallelSlice` / `ParallelSliceMut`: chunked views, one task per chunk.
 
 use crate::iter::Iter;
 
@@ -9,6 +9,53 @@ pub trait ParallelSliceMut<T: Send> {
     fn par_chunks_mut(&mut self, chunk_size: usize) -> Iter<&mut [T]> {
         assert!(chunk_size != 0, "chunk_size must not be zero");
         Iter::from_vec(self.as_parallel_slice_mut().chunks_mut(chunk_size).collect())
+    }
+
+    fn par_chunks_exact_mut(&mut self, chunk_size: usize) -> Iter<&mut [T]> {
+        assert!(chunk_size != 0, "chunk_size must not be zero");
+        Iter::from_vec(self.as_parallel_slice_mut().chunks_exact_mut(chunk_size).collect())
+    }
+
+    /// Sorting is not a scheduling-visible operation: sequential, deterministic.
+    fn par_sort(&mut self)
+    where
+        T: Ord,
+    {
+        self.as_parallel_slice_mut().sort()
+    }
+    fn par_sort_unstable(&mut self)
+    where
+        T: Ord,
+    {
+        self.as_parallel_slice_mut().sort_unstable()
+    }
+    fn par_sort_by_key<K: Ord, F: Fn(&T) -> K + Sync>(&mut self, f: F) {
+        self.as_parallel_slice_mut().sort_by_key(f)
+    }
+    fn par_sort_unstable_by_key<K: Ord, F: Fn(&T) -> K + Sync>(&mut self, f: F) {
+        self.as_parallel_slice_mut().sort_unstable_by_key(f)
+    }
+}
+
+pub trait ParallelSlice<T: Sync> {
+    fn as_parallel_slice(&self) -> &[T];
+
+    fn par_chunks(&self, chunk_size: usize) -> Iter<&[T]> {
+        assert!(chunk_size != 0, "chunk_size must not be zero");
+        Iter::from_vec(self.as_parallel_slice().chunks(chunk_size).collect())
+    }
+    fn par_chunks_exact(&self, chunk_size: usize) -> Iter<&[T]> {
+        assert!(chunk_size != 0, "chunk_size must not be zero");
+        Iter::from_vec(self.as_parallel_slice().chunks_exact(chunk_size).collect())
+    }
+    fn par_windows(&self, window_size: usize) -> Iter<&[T]> {
+        Iter::from_vec(self.as_parallel_slice().windows(window_size).collect())
+    }
+}
+
+impl<T: Sync> ParallelSlice<T> for [T] {
+    fn as_parallel_slice(&self) -> &[T] {
+        self
     }
 }
 
